@@ -121,6 +121,15 @@ CLAIMS = {
         'note': 'Deferred semantics are Twisted\'s; more than 65535 outstanding requests are out of scope. These rules are regression guards (all hold today).',
         'technique': 'dataflow / ordering rules over enumerated paths (static)',
     },
+    'C19': {
+        'text': 'Pair table over all 13 add_*/decode_* pairs: same struct format character (checked against the type\'s documented '
+                'character), same path (direct with the configured byte order vs. through the word helpers), decoder advance = '
+                'calcsize and slice [pointer-n:pointer]; WC table = calcsize; the two word helpers are compared as transformations '
+                '(split into network-order words, reverse iff wordorder Little, re-pack per word with the byte order) which makes them '
+                'an involution pair; register transport formats and build() padding.',
+        'note': 'struct is trusted for value-level round trips; these rules decide the layout agreement for all values at once.',
+        'technique': 'writer/reader pair table + sibling transformation comparison via value propagation (static)',
+    },
 }
 
 _PENDING = 'check not built yet in this revision (planned, see DESIGN.md §2)'
